@@ -42,7 +42,7 @@ def gen_cases(tier, seed):
     for k, c in enumerate(cases):
         s = stable_hash(seed, "C03", c["family"], c["name"], c["bm"], c["i"])
         c.update(seed=s, budget=BUDGETS[s % len(BUDGETS)], w=WINDOWS[(s >> 4) % len(WINDOWS)],
-                 chunking=["one", "small", "small", "large"][(s >> 8) % 4], rs=["int", "int", "instance", "none"][(s >> 11) % 4],
+                 chunking=["one", "small", "small", "large"][(s >> 8) % 4], rs=["used_instance", "int", "instance", "none"][(c["i"] + stable_hash(seed, "rs", c["name"], c["bm"])) % 4],
                  n=n if c["name"] not in ("StreamProbabilisticAL",) else n // 3,
                  stream=["dyadic", "uncertain", "clustered"][(s >> 14) % 3],
                  clf=["stub", "stub", "pwc"][(s >> 17) % 3])
@@ -59,6 +59,11 @@ def _rs(kind, seed):
         return seed % (2**31 - 1)
     if kind == "instance":
         return np.random.RandomState(seed % (2**31 - 1))
+    if kind == "used_instance":
+        # a generator the caller has used before: one normal draw leaves a cached second Gaussian in its state
+        rs = np.random.RandomState(seed % (2**31 - 1))
+        rs.normal()
+        return rs
     return None
 
 
